@@ -56,7 +56,10 @@ impl Decoder for ServerCodec {
         }
         match self.state {
             CodecState::Header => {
-                if src.remaining() < 60 || src.remaining() < 59 + address::try_decode_at(src, 59)? {
+                let Some(addr_len) = address::try_decode_at(src, 59)? else {
+                    return Ok(None);
+                };
+                if src.remaining() < 59 + addr_len + trojan::CR_LF.len() {
                     return Ok(None);
                 }
                 if src[56] != b'\r' {
